@@ -34,6 +34,7 @@ import (
 	"go/token"
 	"os"
 	"path/filepath"
+	"reflect"
 	"sort"
 	"strings"
 	"unicode"
@@ -54,6 +55,7 @@ type StaticSite struct {
 	Inst   string `json:"inst"`
 	Msg    string `json:"msg"`
 	HasCtx bool   `json:"has_ctx"` // the enclosing function has a *ParseContext at hand (a parameter or a local derived from one)
+	Dead   string `json:"dead"`    // non-empty: the enclosing function cannot be reached from the public API (reason); see deadFuncs
 }
 
 // summary of a function of package issues that reaches FinalizeIssue
@@ -828,6 +830,26 @@ func genSites(repo, outDir string) error {
 	if len(lkOut["sizable"]) < 4 || len(lkOut["formats"]) < 20 || len(lkOut["types"]) < 8 {
 		return fmt.Errorf("the translator found too few locale dictionary keys: %d sizable, %d formats, %d types", len(lkOut["sizable"]), len(lkOut["formats"]), len(lkOut["types"]))
 	}
+	// unreachable functions (by name, over-approximating liveness): the rows inside them are dead code
+	deadFn := map[string]string{}
+	{
+		var dfs []struct {
+			rel string
+			f   *ast.File
+		}
+		for _, ft := range files {
+			dfs = append(dfs, struct {
+				rel string
+				f   *ast.File
+			}{ft.rel, ft.f})
+		}
+		deadFn = deadFuncs(dfs)
+	}
+	for i := range sites {
+		if why, ok := deadFn[sites[i].File+":"+sites[i].Func]; ok {
+			sites[i].Dead = why
+		}
+	}
 	b, _ := json.MarshalIndent(map[string]any{"sites": sites, "helpers": hs, "locale_keys": lkOut}, "", " ")
 	return os.WriteFile(filepath.Join(outDir, "sites.json"), b, 0o644)
 }
@@ -868,4 +890,120 @@ func classMsg(e ast.Expr) string {
 		return "preset"
 	}
 	return "flow"
+}
+
+// deadFuncs: the functions and methods that cannot be reached from the library's public API, decided by NAME (source only,
+// no type information), so that liveness is over-approximated: a function is LIVE when it is exported and declared in a
+// public package (users can call it; an exported method may also satisfy an interface), when it is init/main, when its name
+// occurs in a package-level initialiser, or when its name occurs in the body of a live function of a package that can see it
+// (same package for unexported names; any package for exported ones).  Everything else is dead: an unexported function no
+// live code names, or an exported function of an internal/ package that no live code names.  Key "file:Recv.Name".
+func deadFuncs(files []struct {
+	rel string
+	f   *ast.File
+}) map[string]string {
+	type fn struct {
+		key, pkg, name string
+		typed          string // Recv.Name for a method
+		exported, root bool
+		refs           map[string]bool
+	}
+	var fns []*fn
+	pkgRefs := map[string]map[string]bool{} // package dir -> names used outside function bodies (var initialisers, type decls)
+	// methods declared per receiver type: `z.m` inside a method of T names T.m when T declares m itself (the shallowest
+	// method wins in Go), otherwise it may be a promoted method of an embedded type: then the reference stays untyped
+	declared := map[string]bool{}
+	for _, ft := range files {
+		for _, d := range ft.f.Decls {
+			if x, ok := d.(*ast.FuncDecl); ok && x.Recv != nil {
+				declared[filepath.Dir(ft.rel)+":"+recvOf(x)+x.Name.Name] = true
+			}
+		}
+	}
+	namesIn := func(n ast.Node, pkg, recvName, recvType string) map[string]bool {
+		m := map[string]bool{}
+		if n == nil || reflect.ValueOf(n).IsNil() {
+			return m
+		}
+		ast.Inspect(n, func(x ast.Node) bool {
+			switch v := x.(type) {
+			case *ast.Ident:
+				m[v.Name] = true
+			case *ast.SelectorExpr:
+				if id, ok := v.X.(*ast.Ident); ok && recvName != "" && id.Name == recvName && declared[pkg+":"+recvType+v.Sel.Name] {
+					m[recvType+v.Sel.Name] = true // a typed reference: the receiver's own method
+					return false
+				}
+				m[v.Sel.Name] = true
+			}
+			return true
+		})
+		return m
+	}
+	names := func(n ast.Node) map[string]bool { return namesIn(n, "", "", "") }
+	for _, ft := range files {
+		pkg := filepath.Dir(ft.rel)
+		internal := strings.HasPrefix(pkg, "internal") || strings.Contains(pkg, "/internal")
+		if pkgRefs[pkg] == nil {
+			pkgRefs[pkg] = map[string]bool{}
+		}
+		for _, d := range ft.f.Decls {
+			switch x := d.(type) {
+			case *ast.FuncDecl:
+				f := &fn{key: ft.rel + ":" + recvOf(x) + x.Name.Name, pkg: pkg, name: x.Name.Name, exported: ast.IsExported(x.Name.Name), typed: recvOf(x) + x.Name.Name}
+				rn := ""
+				if x.Recv != nil && len(x.Recv.List) > 0 && len(x.Recv.List[0].Names) > 0 {
+					rn = x.Recv.List[0].Names[0].Name
+				}
+				f.refs = namesIn(x.Body, pkg, rn, recvOf(x))
+				f.root = (f.exported && !internal) || x.Name.Name == "init" || x.Name.Name == "main"
+				fns = append(fns, f)
+			case *ast.GenDecl:
+				for n := range names(x) {
+					pkgRefs[pkg][n] = true
+				}
+			}
+		}
+	}
+	live := map[*fn]bool{}
+	seenExported := map[string]bool{}          // exported names referenced by live code anywhere
+	seenLocal := map[string]map[string]bool{} // pkg -> names referenced by live code of that package
+	add := func(pkg string, refs map[string]bool) {
+		if seenLocal[pkg] == nil {
+			seenLocal[pkg] = map[string]bool{}
+		}
+		for n := range refs {
+			seenLocal[pkg][n] = true
+			if ast.IsExported(n) {
+				seenExported[n] = true
+			}
+		}
+	}
+	for pkg, refs := range pkgRefs {
+		add(pkg, refs)
+	}
+	for changed := true; changed; {
+		changed = false
+		for _, f := range fns {
+			if live[f] {
+				continue
+			}
+			if f.root || seenLocal[f.pkg][f.name] || seenLocal[f.pkg][f.typed] || (f.exported && seenExported[f.name]) {
+				live[f] = true
+				add(f.pkg, f.refs)
+				changed = true
+			}
+		}
+	}
+	dead := map[string]string{}
+	for _, f := range fns {
+		if !live[f] {
+			if f.exported {
+				dead[f.key] = "exported function of an internal package that no live code of the library names"
+			} else {
+				dead[f.key] = "unexported function that no live code of its package names"
+			}
+		}
+	}
+	return dead
 }
